@@ -9,7 +9,8 @@
    lengths, all modes, all feature levels, split updates, finseek, reset, clone, same
 3. C updtbb with every script against C upd
 4. every CK flavour against CK portable on random arguments; no flag may fire
-5. `cdriver --threads`: 16 sections x 50 ops per run, every section's output equal to the
+5. CK hmanysep (separately guarded inputs): clean with 64 bytes of slack, known over-reads listed
+6. `cdriver --threads`: 16 sections x 50 ops per run, every section's output equal to the
    single-threaded run of that section (fresh process per repetition)
 Exit status 0 iff everything agrees.
 """
@@ -278,12 +279,45 @@ def test_kernels_vs_rust(cd, rs, rng):
         check(c == r, "vs Rust: %s: %s / %s" % (ln[:60], c[:40], r[:40]))
 
 
+def test_hmanysep(cd, rng):
+    """CK hmanysep: separately guarded inputs.  With 64 readable bytes after every input nothing may
+    fault and every flavour must equal portable; with slack 0 the flavours known to over-read
+    (AVX2 / AVX-512 assembly, n % 8 in 2..7) are listed, every other flavour must be clean."""
+    lines, meta = [], []
+    for f in FLAVOURS:
+        for b in (1, 16, 64):
+            for n in list(range(0, 18)) + [33, 64]:
+                a = "%d %d %d %s %d %d %d %d %d" % (n, b, rng.randrange(1 << 64), rhex(rng, 32), counters(rng),
+                                                  rng.randrange(2), rng.randrange(256), rng.randrange(256), rng.randrange(256))
+                lines += ["CK hmanysep %s %s" % (f, a), "CK hmanysep %s %s 64" % (f, a), "CK hmany portable %s 0 0" % a,
+                          "CK hmany %s %s 0 0" % (f, a)]
+                meta.append((f, b, n))
+    out = run(cd, lines)
+    faulty = {}
+    for i, (f, b, n) in enumerate(meta):
+        sep0, sep64, ref, adj = out[4 * i:4 * i + 4]
+        check(sep64 == ref, "hmanysep slack 64 %s n %d blocks %d: %s" % (f, n, b, sep64[-40:]))
+        check(adj == ref, "hmany %s n %d blocks %d: %s" % (f, n, b, adj[-40:]))
+        if sep0 != ref:
+            check("FAULT" in sep0.split(" "), "hmanysep %s n %d blocks %d differs without FAULT: %s" % (f, n, b, sep0[-40:]))
+            check(f in ("avx2_asm", "avx512_asm", "win_avx2_asm", "win_avx512_asm"),
+                  "hmanysep %s n %d blocks %d: %s" % (f, n, b, sep0[-40:]))
+            faulty.setdefault(f, set()).add(n)
+    for f, ns in sorted(faulty.items()):
+        print("  hmanysep FAULT (input over-read) %-15s n = %s" % (f, sorted(ns)))
+    bad = ["CK hmanysep portable 1 1 0 " + "00" * 32 + " 0 1 0 0", "CK hmanysep portable 257 1 0 " + "00" * 32 + " 0 1 0 0 0",
+           "CK hmanysep portable 2 1 0 " + "00" * 32 + " 0 1 0 0 0 0 2", "CK hmanysep portable 2 1 0 " + "00" * 32 + " 0 1 0 0 0 0 1 1",
+           "CK hmanysep portable 2 1025 0 " + "00" * 32 + " 0 1 0 0 0"]
+    for ln, o in zip(bad, run(cd, bad)):
+        check(o == "bad-op", "expected bad-op: %s -> %s" % (ln, o[:30]))
+
+
 def gen_section(rng, nops=50):
     """an op script for one thread of `cdriver --threads`: mixed C and CK ops, own registers"""
     ops = ["C init a hash"]
     regs = ["a"]
     while len(ops) < nops:
-        k = rng.randrange(14)
+        k = rng.randrange(15)
         r = rng.choice(regs)
         if k == 0:
             nr = rng.choice("abcd")
@@ -310,6 +344,10 @@ def gen_section(rng, nops=50):
                 rng.choice(FLAVOURS), rng.randrange(35), rng.choice([1, 16]), rng.randrange(1 << 64), rhex(rng, 32),
                 counters(rng), rng.randrange(2), rng.randrange(256), rng.randrange(256), rng.randrange(256),
                 rng.randrange(64), rng.randrange(32)))
+        elif k == 14:
+            ops.append("CK hmanysep %s %d %d %d %s %d %d %d %d %d" % (
+                rng.choice(FLAVOURS), rng.randrange(20), rng.choice([1, 16]), rng.randrange(1 << 64), rhex(rng, 32),
+                counters(rng), rng.randrange(2), rng.randrange(256), rng.randrange(256), rng.randrange(256)))
         else:
             ops.append("CK xofmany %s %s %s %d %d %d %d" % (rng.choice(["avx512_asm", "avx512_c", "sse41_asm"]), rhex(rng, 32), rhex(rng, 64),
                                                          rng.randrange(65), counters(rng), rng.randrange(256), rng.randrange(1, 20)))
@@ -369,6 +407,7 @@ def main():
     print("updtbb"); test_tbb(cd, rng)
     print("kernels"); test_kernels(cd, rng, calls)
     print("kernels vs Rust"); test_kernels_vs_rust(cd, rs, rng)
+    print("hmanysep"); test_hmanysep(cd, rng)
     print("threads mode"); test_threads(cd, rng, int(opts.get("threads-reps", "10")))
     print("FAILURES: %d" % fails)
     sys.exit(1 if fails else 0)
